@@ -1035,7 +1035,9 @@ func callgrindName(names map[string]int, name string) string {
 	}
 	id := len(names) + 1
 	names[name] = id
-	return fmt.Sprintf("(%d) %s", id, name)
+	// The format is line based: a line break inside a name would end
+	// the name definition and corrupt the lines that follow.
+	return fmt.Sprintf("(%d) %s", id, strings.NewReplacer("\n", " ", "\r", " ").Replace(name))
 }
 
 // callgrindAddress implements the callgrind subposition compression scheme if
